@@ -74,7 +74,6 @@ theorem uncommit_ok_inv (g : Graph) (st st' : St) (d : Nat) (keep loc : Bool)
   split at h <;> try (simp at h; done)
   split at h <;> try (simp at h; done)
   rename_i t pm hw
-  split at h <;> try (simp at h; done)
   cases h
   exact ⟨old, t, pm, htip, hw, rfl⟩
 
